@@ -83,9 +83,13 @@ CLAIMED = {
              "Tie: Buffer (C) and packet.py driven on boundary-exhaustive and random inputs (all parameter subsets in thorough) "
              "against the compiled model and the spec encoders, plus RFC oracles in plain Python. TLS handshake messages: AQ.Props.C17tls "
              "(uintBE/opaque/block/list combinator laws, block never reads past its declared length, round trips of Finished, "
-             "CertificateVerify, Certificate, EncryptedExtensions, ServerHello, ClientHello) + acceptance-model correspondence on mutated bytes.",
-        note="Trusted: Lean kernel; standard axioms; harness/impl_codec.py; packet header decode-then-reencode is checked by "
-             "correspondence only; TLS canonicity proved for Finished/CertificateVerify only, NewSessionTicket/CertificateRequest decoders by correspondence.",
+             "CertificateVerify, Certificate, EncryptedExtensions, ServerHello, ClientHello) + acceptance-model correspondence on mutated bytes. "
+             "Packet headers: AQ.Props.C17hdr (pull_quic_header o library/RFC header encoders = identity for every well-formed header of "
+             "both versions, all low first-byte bits and Length widths; error class; the code's malformed-input checks; truncation; "
+             "consumed <= packet_length <= buffer). Typed TLS extension bodies: AQ.Props.C17tlsExt (round trip of every extension body "
+             "tls.py parses, exactness inside the declared extension length) tied by the tlsx. correspondence (checks/c17_tlsext.py).",
+        note="Trusted: Lean kernel; standard axioms; harness/impl_codec.py, impl_tlsext.py; Retry/VN have no general truncation theorem (a cut Retry is a shorter valid "
+             "Retry - the code's behaviour); TLS canonicity proved for Finished/CertificateVerify only, NewSessionTicket/CertificateRequest decoders by correspondence.",
         technique="Lean 4 algebraic round-trip laws for all inputs; differential correspondence incl. independent encoder",
         design="DESIGN.md §5 C17",
     ),
@@ -94,8 +98,11 @@ CLAIMED = {
              "emitted frame, any frame delivered any number of times in any order, ack/loss once per emission): delivered bytes = "
              "written.take(n) (prefix, in order, gap- and repeat-free), at most one end-of-stream event and only after FIN was written "
              "and everything delivered, no FinalSizeError from honest frames, conservation of unsent obligations, bounded progress "
-             "(c01_liveness_partial: the temporal statement over infinite fair runs is not formalised), with counterexample theorems for "
-             "the three pre-fix behaviours. Tie: per-step correspondence derived from real connections (wrapped stream methods) and a "
+             "(c01_liveness_partial / c01_liveness_bounded_partial: the temporal statement over infinite fair runs is not formalised), any "
+             "set of streams (AQ.Props.C01Multi), key-generation bookkeeping (AQ.Props.C01Keys), and loss-detection completeness on the "
+             "recovery model (AQ.Props.C01Loss: packet- and time-threshold completeness on ACK, surviving packet arms the loss timer, timer "
+             "runs detection, PTO deadline and probe, each frame reported once), with counterexample theorems for the pre-fix behaviours. "
+             "One open finding (C01-rebind-challenge-lost, KNOWN-FINDING line). Tie: per-step correspondence derived from real connections (wrapped stream methods) and a "
              "property oracle over PRNG scripts x adversarial then fair networks (drop/dup/reorder/rebind, both controllers, both "
              "versions, key updates, CID changes) + directed scenarios for each repaired defect.",
         note="Trusted: Lean kernel; standard axioms; harness/sim.py + impl_streamsys.py; flow-control checks are modelled as passing "
@@ -192,10 +199,10 @@ CLAIMED = {
         text="Lean 4 theorems: AQ.Props.C20 (generic noninterference for every well-typed log program, any semantics, loop bound and "
              "call depth; log code never raises; guarded blocks transparent; non-vacuity counterexamples) and AQ.Props.C20Gen by "
              "decide +kernel on the program REGENERATED from logger.py/connection.py/recovery.py/packet_builder.py/h3 on every run: "
-             "it is well-typed (guards write only log-only locations, no log-to-protocol flow), encoders contain no unprotected "
-             "partial operation, encoder results are JSON types only, exactly one packet_sent / packet_received-or-dropped record on "
+             "it is well-typed (guards write only log-only locations, no log-to-protocol flow), encoders and log argument expressions contain no unprotected "
+             "partial operation (incl. len/index/attribute of an Optional that may be None on the path), encoder results are JSON types only, exactly one packet_sent / packet_received-or-dropped record on "
              "every registering/authenticating path. Tie: the translator + paired runs (same seed, logging off vs qlog/secrets/both/"
-             "file logger) over benign/lossy/hostile/HTTP3 scenarios comparing events, decrypted frames, sizes, timers, final state, "
+             "file logger) over benign/lossy/hostile/HTTP3 (incl. QPACK-blocked HEADERS / trailers / PUSH_PROMISE with a late encoder stream) scenarios comparing events, decrypted frames, sizes, timers, final state, "
              "exceptions, strict JSON serialisation and record counts.",
         note="Trusted: Lean kernel (propext, Quot.sound only); tools/extract_log.py AST-to-IR translation and its tables (PURE_CALLS, "
              "CALLBACK_EDGES, ARGUED, TYPE_HINTS); log sinks do not fail; two partial operations rest on argued invariants; "
@@ -238,10 +245,12 @@ CLAIMED = {
              "ConnectionError, after ConnectionTerminated (resp. HandshakeCompleted) every waiter started before OR after is "
              "completed exactly once; reader bytes = concatenated StreamDataReceived data then EOF once; timer/transmit-task "
              "bookkeeping exact; routing table invariant (every issued-not-retired CID of a live connection routed, nothing for "
-             "terminated ones); connection state under retry only for a token sealed for that address; counterexample theorems for "
+             "terminated ones); connection state under retry only for a token sealed for that address; the retry address encoding is injective and total "
+             "for ports < 65536 (compared with retry.encode_address over all 65536 ports); counterexample theorems for "
              "the pre-fix schedules. Tie: real QuicConnectionProtocol/QuicServer over a scripted connection (exhaustive depth-3/4 "
              "step sequences) and over real connections on a virtual-time event loop with an adversarial in-memory network and a "
-             "forged-token adversary; every callback replayed on the model; oracle from the property text.",
+             "forged-token adversary that replays issued tokens from neighbouring addresses, and quiet worlds (writer operations separated by "
+             "quiescence); every callback replayed on the model; oracle from the property text.",
         note="Trusted: Lean kernel; standard axioms; harness/vloop.py (virtual-time SelectorEventLoop) and impl_adapter.py; asyncio "
              "callbacks are atomic; ghost assumption monitors (unique waiter ids, event-order guarantees of C01/C09, unforgeable "
              "retry-token seal) are hypotheses; receive_datagram/handle_timer/datagrams_to_send do not raise (C05/C16).",
